@@ -1,4 +1,5 @@
 import Gmsm.Model.Record
+import Gmsm.Model.ExtractPadding
 namespace Driver
 open Gmsm Model.Record
 
@@ -38,7 +39,8 @@ def expad (args : List String) : String :=
   match args.mapM ofHex with
   | some [p] =>
     let (n, good) := extractPadding p
-    s!"{n} {if good then 255 else 0}"
+    let (n2, g2) := Model.ExtractPadding.extractPaddingGo p   -- bit-level transcription of the Go code
+    s!"{n} {if good then 255 else 0}" ++ (if n2 = n ∧ g2.toNat = (if good then 255 else 0) then "" else s!" GOMODEL-MISMATCH:{n2},{g2.toNat}")
   | _ => "bad-op"
 
 end Driver
